@@ -458,6 +458,13 @@ def _array_column(e):
             if kb.kind != 'const' or kb.loops():
                 return None
             x = kb.ret_expr()
+        elif x[0] == 'const' and x[2] is None and re.search(r'alloc\d+: &\[(.+); (\d+)\]', str(x[3])):
+            # `TABLE.iter()` on a const table that rustc placed in an anonymous allocation: the one `const` item of that array type
+            m_ = re.search(r'alloc\d+: &(\[.+; \d+\])', str(x[3]))
+            cands = [kb for kb in getattr(_facts_mod.CURRENT, 'bodies', {}).values() if kb.kind in ('const', 'static') and str(kb.locals.get(0, '')).replace(' ', '') == m_.group(1).replace(' ', '')]
+            if len(cands) != 1 or cands[0].loops():
+                return None
+            x = cands[0].ret_expr()
         else:
             break
     if x[0] != 'aggr' or x[1] != 'array' or 'elem' not in path:
